@@ -52,8 +52,8 @@ theorem jump_reach {c : Code} {more : List Code} {s s1 : State} {a : Word} {j : 
     · exact L.land (l := l) (by rw [List.getElem?_eq_getElem hj, h])
   obtain ⟨m, hm, hmj, hbetween⟩ := hland
   have hr1 : Reach p cfg s (setPS s1 m (s.steps + 1)) := by
-    refine ⟨1, fun fuel => ?_⟩
-    exact runLoop_addr p cfg fuel s s1 h1 (by rw [h2]; exact hi) (by rw [h2]; exact hx _) (by rw [ha]; exact hm)
+    refine Reach.of_step ?_
+    exact Scc.RV.step_of_addr p cfg s s1 h1 (by rw [h2]; exact hi) (by rw [h2]; exact hx _) (by rw [ha]; exact hm)
   have hr2 := pass_items L hheap (setPS s1 m (s.steps + 1)) (j - m) m rfl (by omega)
     (fun t ht1 ht2 c hc => ⟨hbetween t ht1 (by omega) c hc, fun e => hcl t (by omega) (by rw [hc, e])⟩)
   have e : setPS (setPS s1 m (s.steps + 1)) (m + (j - m)) (setPS s1 m (s.steps + 1)).steps =
